@@ -1461,3 +1461,48 @@ mod tests {
         }
     }
 }
+
+/// Verification hook (C18, `--cfg rustrtc_verif` only; add-only, read-only): the hidden part of
+/// the latch state machine — latching flag, expected SSRC, configured probation window and the
+/// probation table `(total, max, [(addr, first_seq, last_seq, first_ts, packet_count,
+/// consecutive_count, has_marker)])` in table order — so the harness compares state, not only
+/// behaviour.
+#[cfg(rustrtc_verif)]
+impl IceConn {
+    #[allow(clippy::type_complexity)]
+    pub fn verif_latch_state(
+        &self,
+    ) -> (
+        bool,
+        u32,
+        u8,
+        Option<(u8, u8, Vec<(SocketAddr, u16, u16, u32, u8, u8, bool)>)>,
+    ) {
+        let prob = self.probation.lock().as_ref().map(|p| {
+            (
+                p.total_packets,
+                p.max_packets,
+                p.candidates
+                    .iter()
+                    .map(|c| {
+                        (
+                            c.addr,
+                            c.first_seq,
+                            c.last_seq,
+                            c.first_ts,
+                            c.packet_count,
+                            c.consecutive_count,
+                            c.has_marker,
+                        )
+                    })
+                    .collect(),
+            )
+        });
+        (
+            self.latch_on_rtp.load(Ordering::Relaxed),
+            self.expected_ssrc.load(Ordering::Relaxed),
+            self.probation_max_packets.load(Ordering::Relaxed),
+            prob,
+        )
+    }
+}
